@@ -26,7 +26,9 @@ CLAIMED = {
          'All hash vtables, multihash, SHAKE, HMAC (incl. constant-time outCT over all (min,len,max) triples up to 3 blocks), TLS PRFs, HKDF, MGF1, HMAC_DRBG and AESCTR_DRBG are driven with generated messages, partitions, saved/injected states and key/seed/output lengths; every output is compared with OpenSSL or with reference code written from the specification, and re-runs must be identical.',
          'Trusts OpenSSL 3.0 digests/HMAC/KDFs and the hand-written SP 800-90A / RFC 5869 / bearssl_rand.h references; sampled above the exhaustive bounds.'), 'C12': ('exploration', 'runtime monitoring: differential oracle (every implementation vs OpenSSL EVP / spec-level reference, and pairwise) under ASan/UBSan, with exhaustive lengths, counter wraps and call splits',
          'Every AES (big, small, ct, ct64, x86ni), DES (tab, ct), ChaCha20 (ct, sse2), Poly1305 (ctmul, ctmul32, ctmulq, i15) and GHASH (ctmul, ctmul32, ctmul64, pclmul) implementation is run through its vtable / function pointer on the same generated inputs, in place: every block-multiple length to 4 KiB for CBC/CTRCBC, every length 0..1100 and sampled to 4 KiB for stream modes, counters at and around 2^32 and 128-bit wraps, all two-way splits to 1 KiB plus random multi-way splits; outputs and returned chaining state are compared with the reference and with every sibling implementation; Poly1305 accumulators are crafted to the reduction boundaries.',
-         'Trusts OpenSSL 3.0 EVP (AES, 3DES, ChaCha20-Poly1305) and bitwise reference code self-checked against published vectors; hardware variants only as present on this CPU (x86ni, sse2, pclmul, ctmulq present; pwr8 absent).'),
+         'Trusts OpenSSL 3.0 EVP (AES, 3DES, ChaCha20-Poly1305) and bitwise reference code self-checked against published vectors; hardware variants only as present on this CPU (x86ni, sse2, pclmul, ctmulq present; pwr8 absent).'), 'C20': ('exploration', 'runtime monitoring: seeder fault injection through a guarded hook and a seeder-less library build; independent record decoder as sequence-number / nonce / IV monitor; cross-connection distinctness and equal-seed reproducibility checks',
+         'Client and server resets are exercised with a failing seeder, no seeder (hook H1) and a build of the library with every system seeder disabled, with and without injected entropy (must refuse with BR_ERR_NO_RANDOM before emitting a byte, or proceed). Long sessions per protection mode and version with renegotiations: each protected record must authenticate under sequence number previous+1 from 0 after every key change in the independent record layer, and explicit IVs/nonces per (direction, key) are pairwise distinct. 200/1000 connections with distinct seeds have pairwise distinct randoms, session IDs, ECDHE points and encrypted premasters; equal seeds and schedules reproduce the wire bytes exactly.',
+         'Uniqueness is observed on sampled sessions; randomness quality is not assessed.'),
 }
 
 ENGINES = []
